@@ -19,6 +19,17 @@ def first_record(line):
     return line.split(" ; ")[0]
 
 
+LEAD = lb.build_header({"level": 0, "method": b"-lh0-", "clen": 0, "length": 0, "crc": 0, "attr": 0x20, "os": 0, "time": 0x21, "name": b"lead"})
+
+
+def second_record(line):
+    """the text of the second header record of a drv_hdr output line (the first must be the plain lead member), or None"""
+    parts = line.split(" ; ")
+    if len(parts) < 3 or not parts[0].startswith("H ") or " fn=6c656164 " not in parts[0] or not parts[1].startswith("H "):
+        return None
+    return parts[1]
+
+
 def directed(ctx, rnd):
     """field records for combinations the random generator reaches rarely or never: (fields, member data)
     symlinks with several '|' (every name source), level-2 headers with the padding byte(s) Unix LHA appends, level-0
@@ -109,6 +120,191 @@ def directed(ctx, rnd):
     return out
 
 
+MINLEN = {0x00: 2, 0x01: 1, 0x02: 1, 0x41: 24, 0x50: 2, 0x51: 4, 0x52: 1, 0x53: 1, 0x54: 4, 0xcc: 12}
+
+
+def directed2(ctx, rnd):
+    """second set of directed records (audit round 2): (fields, member data)
+    * level-0/1 headers whose one-byte length field is at the top of its range (250..255), with and without a level-0 area;
+    * every supported extended header with payloads of min-1, min, min+1 .. bytes (a header shorter than its minimum is
+      ignored like an unknown one, a longer one is decoded from its first bytes), placed before and after ordinary headers
+      that set the same fields, at levels 1-3;
+    * the longest headers the formats allow: level 3 of exactly 1 MiB, level 2 of 65535 / 65534 bytes (OS-9/68k: length
+      field 65535, two bytes more on disk);
+    * level-0 areas of every length 8..29 in the Unix, OS-9/68k and OS-9 forms; path headers with bytes behind a NUL;
+    * Unix areas that also pass the OS-9 tests; method fields that only resemble -pm*, -lh7-, -lh0-, -lhd-; nested paths
+      with '..' / '.' / empty components in every position (the exact result of the path filter);
+    * DOS time stamps with every field at both ends of its range and out-of-range months / days / hours;
+    * names whose only letters are non-ASCII or sit next to the separators (case folding must not touch other bytes)."""
+    import struct
+    out = []
+    ch = b"abcdefghijklmnopqrstuvwxyzABCDEFGHIJKLMNOPQRSTUVWXYZ0123456789._- "
+
+    def word(n):
+        return bytes(rnd.choice(ch) for _ in range(n))
+    # ---- length byte at the top of its range
+    for lv in (0, 1):
+        for hl in (250, 251, 252, 253, 254, 255):
+            for variant in range(3 if lv == 0 else 2):
+                f = {"level": lv, "method": rnd.choice([b"-lh5-", b"-lh0-", b"-lhd-"]), "clen": rnd.choice([0, 3, 9]), "length": rnd.randrange(5000),
+                     "crc": rnd.getrandbits(16), "attr": 0x20, "os": rnd.choice([0, ord('M'), ord('U'), ord('A')]), "time": lb.dos_ftime(2001, 2, 3, 4, 5, 6)}
+                if lv == 0:
+                    area = b""
+                    if variant == 1:
+                        area = bytes([ord('U'), 0]) + struct.pack("<IHHH", rnd.getrandbits(32), 0o100640, 1000, 100)
+                    elif variant == 2:
+                        a = bytearray(rnd.randrange(256) for _ in range(22))
+                        a[0] = ord('9'); a[9] = 0xcc; a[17] = a[1]; a[18] = a[2]
+                        area = bytes(a)
+                    n = hl - 22 - len(area)
+                    f["area"] = area
+                else:
+                    n = hl - 25
+                    f["exts"] = [] if variant == 0 else [(0x54, struct.pack("<I", rnd.getrandbits(32))), (0x51, struct.pack("<HH", 3, 4))]
+                k = rnd.randrange(1, n - 1)
+                f["name"] = word(k) + b"\\" + word(n - k - 1)
+                assert len(f["name"]) == n
+                out.append((f, None))
+    # ---- payload lengths around the minimum of every supported type
+    perms = struct.pack("<H", 0o100751)
+    for lv in (1, 2, 3):
+        for t, m in sorted(MINLEN.items()):
+            for n in sorted({0, m - 1, m, m + 1, m + 2, m + 9} - {-1}):
+                for where in (0, 1):
+                    if t in (1, 2, 0x52, 0x53):
+                        pay = word(n)
+                        if t == 2 and n and rnd.random() < 0.5:
+                            pay = pay[:-1] + b"\xff"
+                    else:
+                        pay = bytes(rnd.randrange(1, 256) for _ in range(n))
+                    ordinary = [(1, b"nm"), (2, b"dr\xff"), (0x50, perms), (0x51, struct.pack("<HH", 11, 12)), (0x54, struct.pack("<I", 1234567890)),
+                                (0x52, b"grp"), (0x53, b"usr"), (0x41, struct.pack("<QQQ", 1, 2, 3))]
+                    exts = [(t, pay)] + ordinary if where == 0 else ordinary + [(t, pay)]
+                    if rnd.random() < 0.3:
+                        exts.append((0x7e, word(rnd.randrange(0, 5))))
+                    f = {"level": lv, "method": b"-lh5-", "clen": 2, "length": 7, "crc": 513, "attr": 0x20, "os": rnd.choice([ord('U'), ord('M'), ord('9')]),
+                         "time": 0x21 if lv == 1 else 99999, "exts": exts}
+                    if lv == 1:
+                        f["name"] = b"base"
+                    out.append((f, None))
+    # ---- the longest headers
+    def sized(lv, total, os_):
+        """a header of `total` bytes on disk: name, path and one unknown header that fills the rest"""
+        fs = 4 if lv == 3 else 2
+        fixed = {2: 26, 3: 32}[lv]
+        e = [(1, b"big.bin"), (2, b"top\xff")]
+        used = fixed + sum(1 + len(p_) + fs for _, p_ in e)
+        fill = total - used - (1 + fs)
+        e.append((0x7d, bytes(rnd.randrange(256) for _ in range(fill))))
+        return {"level": lv, "method": b"-lh5-", "clen": 4, "length": 40, "crc": 7, "attr": 0x20, "os": os_, "time": 1700000000, "exts": e}
+    for (lv, total, os_) in [(3, 1048576, ord('U')), (3, 300000, ord('M')), (2, 65535, ord('U')), (2, 65534, ord('M')), (2, 65537, ord('K')),
+                             (2, 65536, ord('K'))]:
+        f = sized(lv, total, os_)
+        assert len(lb.build_header(f)) == total
+        out.append((f, None))
+    # ---- level-0 areas of every length around the two recognised forms, all discriminating bytes right
+    for n in range(8, 30):
+        for first in (ord('U'), ord('K'), ord('9')):
+            a = bytearray(rnd.randrange(1, 256) for _ in range(n))
+            a[0] = first
+            if first == ord('9'):
+                if n > 9:
+                    a[9] = 0xcc
+                if n > 18:
+                    a[17], a[18] = a[1], a[2]
+            else:
+                a[1] = 0
+            f = {"level": 0, "method": b"-lh5-", "clen": 1, "length": 5, "crc": 9, "attr": 0x20, "os": 0, "time": 0x21, "name": b"Dir\\File.x", "area": bytes(a)}
+            out.append((f, None))
+    # ---- bytes hidden behind a NUL in the path must not take part in the all-caps test
+    for lv in (1, 2, 3):
+        for pth in (b"\0abc\xff", b"\0abc", b"AB\0cd\xff", b"\0\xff"):
+            for nm in (b"UPPER.TXT", b"UP\0low"):
+                f = {"level": lv, "method": b"-lh5-", "clen": 0, "length": 0, "crc": 0, "attr": 0x20, "os": rnd.choice([ord('M'), ord('2'), ord(' ')]),
+                     "time": 0x21 if lv == 1 else 5, "exts": [(2, pth), (1, nm)]}
+                if lv == 1:
+                    f["name"] = b""
+                out.append((f, None))
+    # ---- a Unix / OS-9/68k area that also meets the tests of the OS-9 form (and the reverse is impossible: first byte)
+    for first in (ord('U'), ord('K')):
+        for n in (22, 23, 26):
+            a = bytearray(rnd.randrange(1, 256) for _ in range(n))
+            a[0], a[1], a[9], a[17], a[18] = first, 0, 0xcc, 0, a[2]
+            out.append(({"level": 0, "method": b"-lh5-", "clen": 1, "length": 5, "crc": 9, "attr": 0x20, "os": 0, "time": 0x21, "name": b"f", "area": bytes(a)}, None))
+    # ---- method fields that only resemble the special ones (-pm*: level-0 area ignored; -lh7- from LHARK at level 1: -lk7-;
+    #      -lh0- from Amiga; -lhd-).  The start of an archive is recognised by its method field (-lh?-, -lz[45s]-, -pm?-), so
+    #      these records are placed SECOND in the archive, after a plain member, where any method field is read.
+    uarea = bytes([ord('U'), 0]) + struct.pack("<IHHH", 77, 0o100600, 5, 6)
+    for m in (b"-pm0-", b"-pm9-", b"-pc1-", b"-p\0\0\0", b"-Pm2-", b"-pM1-", b"-qm1-", b"xpm1-"):
+        out.append(({"level": 0, "method": m, "clen": 0, "length": 3, "crc": 9, "attr": 0x20, "os": 0, "time": 0x21, "name": b"f", "area": uarea}, None, "second"))
+    for m in (b"-lh7-", b"-lh7x", b"-lh7\0", b"-lh70", b"-LH7-", b"-lh7\xff", b"-lh6-", b"-lk7-", b"-lh0-", b"-lh0x", b"-lh0\0", b"-lhd-", b"-lhdx", b"-lhd\0", b"-lhD-"):
+        for lv in (0, 1, 2, 3):
+            for o in (ord(' '), ord('A')):
+                for ln in (0, 4):
+                    f = {"level": lv, "method": m, "clen": 0, "length": ln, "crc": 9, "attr": 0x20, "os": o, "time": 0x21 if lv < 2 else 7}
+                    if lv < 2:
+                        f["name"] = b"Sub\\" + (b"F" if (ln or lv == 0) else b"")
+                    if lv > 0:
+                        f["exts"] = [(2, b"Top\xff")] + ([(1, b"N")] if ln else [])
+                    out.append((f, None, "second"))
+    # ---- what the path filter must do (not only that the result is clean): nested directories, '..' that pops one level
+    #      only, chains of '..', '.', empty components, absolute paths
+    pats = [b"a/b/../c/", b"a/b/c/../d/", b"a/b/c/../../d/", b"a/b/../../c/", b"a/b/../../../c/", b"/a/b/../c/", b"/a/../../b/", b"a/./b/../c/",
+            b"a//b/../c/", b"../a/b/", b"a/../b/../c/", b"aa/bb/cc/dd/../../ee/", b"a/b/.../c/", b"a/..b/../c/", b"a/b../../c/", b"/../", b"/./a/",
+            b"x/y/z/../", b"x/y/z/..", b"one/two/three/../../../four/five/../six/"]
+    for pt in pats:
+        for o in (ord('U'), ord('M')):
+            base = {"method": b"-lh5-", "clen": 0, "length": 0, "crc": 0, "attr": 0x20, "os": o}
+            out.append((dict(base, level=0, time=0x21, name=pt.replace(b"/", b"\\") + b"n"), None))
+            out.append((dict(base, level=1, time=0x21, name=pt + b"n", exts=[]), None))
+            out.append((dict(base, level=2, time=5, exts=[(1, b"n"), (2, pt.replace(b"/", b"\xff"))]), None))
+            out.append((dict(base, level=3, time=5, method=b"-lhd-", exts=[(2, pt.replace(b"/", b"\xff"))]), None))
+            out.append((dict(base, level=2, time=5, method=b"-lhd-", exts=[(0x50, struct.pack("<H", 0o120777)), (2, pt.replace(b"/", b"\xff")), (1, b"l|" + pt)]), None))
+    # ---- DOS time stamps: every field at both ends / out of range
+    for (y, mo, d, h, mi, sec) in [(1980, 1, 1, 0, 0, 0), (1980, 0, 0, 0, 0, 0), (1980, 0, 1, 0, 0, 2), (2107, 12, 31, 23, 59, 58), (2107, 15, 31, 31, 63, 62),
+                                   (2043, 12, 31, 23, 59, 58), (2044, 1, 1, 0, 0, 0), (2000, 2, 29, 12, 0, 0), (2100, 2, 29, 12, 0, 0), (1999, 13, 0, 24, 60, 60),
+                                   (2038, 1, 19, 3, 14, 6), (2038, 1, 19, 3, 14, 8), (2106, 2, 7, 6, 28, 14), (2106, 2, 7, 6, 28, 16), (1980, 1, 0, 0, 0, 0),
+                                   (1981, 14, 30, 25, 61, 0)]:
+        raw = lb.dos_ftime(y, mo, d, h, mi, sec)
+        for lv in (0, 1):
+            f = {"level": lv, "method": b"-lh0-", "clen": 0, "length": 0, "crc": 0, "attr": 0x20, "os": ord('M'), "time": raw, "name": b"T.TXT"}
+            if lv == 1:
+                f["exts"] = []
+            out.append((f, None))
+    # ---- case folding next to other bytes
+    for o in (0, ord('M'), ord('a'), ord(' '), ord('2'), ord('U'), ord('A'), ord('m'), ord('w')):
+        for nm, pth in [(b"\xc4\xd6\xdc.TXT", b"\xc9T\xc9\xff"), (b"@[^_`{|}~", b"AZ@[\xff"), (b"N\x01\x7f\x80\xfe", b"\x80\x81\xff\x82\xff"), (b"Az", b"DIR\xff"),
+                        (b"AZ", b"DIr\xff"), (b"09", b"19\xff"), (b"F", None), (b"\xe0", b"\xc0\xff")]:
+            for lv in (1, 2, 3):
+                e = [(1, nm)] + ([(2, pth)] if pth is not None else [])
+                f = {"level": lv, "method": b"-lh5-", "clen": 0, "length": 0, "crc": 0, "attr": 0x20, "os": o, "time": 0x21 if lv == 1 else 5, "exts": e}
+                if lv == 1:
+                    f["name"] = b""
+                out.append((f, None))
+            f = {"level": 0, "method": b"-lh5-", "clen": 0, "length": 0, "crc": 0, "attr": 0x20, "os": 0, "time": 0x21,
+                 "name": (pth or b"").replace(b"\xff", b"\\") + nm}
+            out.append((f, None))
+    return out
+
+
+def model_lines(ctx, lines):
+    """the model's output for every line; headers of hundreds of kilobytes need more stack than the default 8 MiB
+    (the extracted parser is not tail-recursive everywhere), so those lines run under `prlimit --stack=unlimited`"""
+    import shutil
+    big = [i for i, l in enumerate(lines) if len(l) > 600000]
+    if not big:
+        return common.run_lines_parallel([ctx.model], lines)
+    bigset = set(big)
+    small = [l for i, l in enumerate(lines) if i not in bigset]
+    mo_small = common.run_lines_parallel([ctx.model], small)
+    pre = ["prlimit", "--stack=unlimited"] if shutil.which("prlimit") else []
+    mo_big = common.run_lines_parallel(pre + [ctx.model], [lines[i] for i in big], jobs=len(big))
+    out, a, b = [], iter(mo_small), iter(mo_big)
+    for i in range(len(lines)):
+        out.append(next(b) if i in bigset else next(a))
+    return out
+
+
 def run(ctx):
     rnd = random.Random(ctx.seed * 7368787 + 5)
     cb = CBuild(PID)
@@ -118,20 +314,25 @@ def run(ctx):
         cexe = build(cb)
         n = 1200 if ctx.quick else 30000
         lines, meta = [], []
+        second = set()
         extra = directed(ctx, random.Random(ctx.seed * 611953 + 55))
+        extra += directed2(ctx, random.Random(ctx.seed * 350377 + 555))
         for i in range(n + len(extra)):
             if i < n:
                 f = hdrgen.rfields(rnd, lv=i % 4)
                 hdr, data = hdrgen.member(f)
                 arch = hdr + data + b"\0"
             else:
-                f, data = extra[i - n]
+                f, data = extra[i - n][0], extra[i - n][1]
                 if data is None:
                     hdr, data = hdrgen.member(f)
                     arch = hdr + data + b"\0"
                 else:
                     hdr = lb.build_header(f)
                     arch = hdr + data
+                if len(extra[i - n]) > 2:
+                    arch = LEAD + arch
+                    second.add(i)
                 dist["directed"] += 1
             exp = lb.normalise(f)
             kind = rnd.choice(["file", "pipe", "cbskip", "cbnoskip"])
@@ -149,11 +350,11 @@ def run(ctx):
             dist["level%d" % f["level"]] += 1
             dist["rejected_by_spec" if rec is None else "accepted_by_spec"] += 1
         co = common.run_lines_parallel([cexe], lines)
-        mo = common.run_lines_parallel([ctx.model], lines)
+        mo = model_lines(ctx, lines)
         nontriv = 0
         seen = set()
-        for ln, (f, rec), c, m in zip(lines, meta, co, mo):
-            got = first_record(c)
+        for idx, (ln, (f, rec), c, m) in enumerate(zip(lines, meta, co, mo)):
+            got = first_record(c) if idx not in second else second_record(c)
             hk = hashlib.md5(ln.encode()).digest()
             if hk not in seen:
                 seen.add(hk)
@@ -161,7 +362,7 @@ def run(ctx):
                     nontriv += 1
             if rec != got:
                 viol.append({"property": PID, "kind": "header-fields", "case": ln, "expected": rec, "observed": (got or c)[:1500],
-                             "fields": repr(f)[:1500], "sig": "fields:level%d" % f["level"]})
+                             "fields": repr(f)[:1500], "sig": "fields:level%d" % f["level"], "second": idx in second})
                 continue
             if c != m:
                 mism.append({"case": ln[:3000], "c": c[:800], "model": m[:800]})
@@ -198,7 +399,7 @@ def replay(payload):
     try:
         cexe = build(cb)
         out = common.run_lines_parallel([cexe], [payload["case"]])
-        got = first_record(out[0])
+        got = second_record(out[0]) if payload.get("second") else first_record(out[0])
         print("expected:", payload.get("expected"))
         print("observed:", got or out[0][:500])
         bad = got != payload.get("expected")
